@@ -62,8 +62,15 @@ template<class K> std::vector<K> reserved_data(Ctx &c, size_t L, size_t copies) 
     return d;
 }
 
+/// Lengths 0..40 exhaustively; every 8th case a large array (>= 2^15 keys: the chunked, multi-threaded builder runs).
+inline size_t reserved_len(Ctx &c) {
+    if (c.case_idx % 8 == 7) return c.rng.pick<size_t>({32767, 32768, 32769, 40000, 65536, 100003});
+    return c.case_idx % 41;
+}
+
 template<class K, class Idx> void reserved_static_case(Ctx &c) {
-    size_t L = c.case_idx % 41, copies = 1 + (c.case_idx / 41) % 3;
+    size_t L = reserved_len(c), copies = 1 + (c.case_idx / 41) % 3;
+    if (L >= 32767) c.count("large_arrays_multi_threaded");
     auto d = reserved_data<K>(c, L, copies);
     c.dumper = [&]() { Spec s; s.set_one("config", c.cfg.name); s.set_one("case", c.case_idx); s.set_vec("keys", d); return s; };
     if (c.given) d = c.given->vec<K>("keys");
@@ -84,7 +91,7 @@ template<class K, class Idx> void reserved_static_case(Ctx &c) {
 
 template<class K, size_t Eps, size_t EpsRec> void reserved_mapped_case(Ctx &c) {
     using M = pgm::MappedPGMIndex<K, Eps, EpsRec>;
-    size_t L = c.case_idx % 41, copies = 1 + (c.case_idx / 41) % 3;
+    size_t L = reserved_len(c), copies = 1 + (c.case_idx / 41) % 3;
     auto d = reserved_data<K>(c, L, copies);
     Hasher h; h.add_vec(d); c.input_hash = h.h;
     c.traits = "reserved_key_mapped,len=" + std::to_string(L);
